@@ -5,6 +5,9 @@ CONSTANTS
   LineMax = 20479
   AlphaOf <- NoAlpha
   Sc <- ScTrace
+  LineOf <- SelfLine
+  FixedLen <- NoFixedLen
+  FixedLine <- NoFixedLine
   Obs <- ObsTrace
 INVARIANTS IndexBelowCapacity IndicesMirrorStacks InnermostContext StateThreaded StacksRestored
 POSTCONDITION TraceAccepted
